@@ -50,6 +50,29 @@ def _pairs(ctx, rng, tier):
     for o, a in zip(src, ctx.c(ops, tag="far")):
         if ok(a):
             pairs.append((o, int(a.split()[1], 16)))
+    # paths that start in a pentagon base cell and run 10..60 cells around the pentagon (unfolding tables)
+    near = []
+    for bc in (4, 38, 58, 117):
+        for res in (2, 3, 4, 5, 6, 8, 11):
+            for d in (2, 3, 4, 5, 6):
+                ds = [0] * res
+                ds[rng.choice([res - 1, res - 1, rng.randrange(res)])] = d
+                near.append(gen.mkcell(res, bc, ds))
+    rng.shuffle(near)
+    near = near[: 70 if tier == "quick" else 700]
+    own = ctx.c([f"lij {gen.hx(o)} {gen.hx(o)} 0" for o in near], tag="own2")
+    ops, src = [], []
+    for o, a in zip(near, own):
+        if not ok(a):
+            continue
+        i0, j0 = int(a.split()[1]), int(a.split()[2])
+        for (ui, uj) in ((1, 0), (-1, 0), (0, 1), (0, -1), (1, 1), (-1, -1), (2, 1), (1, 2), (-1, 1), (1, -1), (-2, -1), (-1, -2)):
+            n = rng.choice([12, 25, 36, 42, 50, 70])
+            ops.append(f"ij2cell {gen.hx(o)} {i0 + n * ui} {j0 + n * uj} 0"); src.append(o)
+    for o, a in zip(src, ctx.c(ops, tag="near")):
+        if ok(a):
+            pairs.append((o, int(a.split()[1], 16)))
+            pairs.append((int(a.split()[1], 16), o))
     return pairs
 
 
@@ -86,6 +109,14 @@ def evaluate(ctx, rng, tier, focus, budget, broken):
     for a, b in pairs:
         ops += [f"path {gen.hx(a)} {gen.hx(b)}", f"pathsize {gen.hx(a)} {gen.hx(b)}", f"dist {gen.hx(a)} {gen.hx(b)}"]
     out = ctx.c(ops, tag="eval")
+    if ctx.prep.model:
+        # the same ops through the model: exact cell sequences (the pairs depend on the library, so this
+        # correspondence run lives in the evaluator rather than in streams())
+        for o, a, b in zip(ops, out, ctx.m(ops, tag="evalm")):
+            if a != b:
+                viol_.append(viol("gridPathCells / gridDistance differ from the model", o, b[:200], a[:200]))
+                if len(viol_) >= 5:
+                    break
     ops2, meta2 = [], []
     nok = 0
     longest = 0
